@@ -14,7 +14,7 @@ def expectedC13 : List (String × String) := [
   ("transform.headers.iterskip", "c4a0cb1e97dd7b3d"),
   ("transform.selects.biselect", "a096252a8d24505c"),
   ("transform.selects.facet", "93f96a6abfa56357"),
-  ("transform.selects.iterfieldselect", "a05559b7520b99c0"),
+  ("transform.selects.iterfieldselect", "1972a22696a83cc6"),
   ("transform.selects.iterrowselect", "e3fcfd8d72b4cf96"),
   ("transform.selects.rowlenselect", "f6cfb12f16a710b3")
 ]
